@@ -190,10 +190,23 @@ func metricEngine(seed uint64, tier string, _ []string) {
 						mu.Unlock()
 					}
 				}()
-				for rep := 0; rep < 40*scale; rep++ {
+				for rep := 0; rep < 600*scale; rep++ {
 					for i := w; i < len(work); i += 3 {
 						x := work[i]
 						d := int160.FromByteArray(x.root).Distance(int160.FromByteArray(x.id))
+						if rep%8 != 0 {
+							// mostly the cheap calls alone, back to back, so that they overlap
+							idx, p := dht.VerifBucketIndex(x.root, x.id)
+							if d.BitLen() != x.bitlen || p || idx != x.idx {
+								mu.Lock()
+								if bad == "" {
+									bad = fmt.Sprintf("root=%s id=%s alone: bitlen=%d bucket=%d; among 8 goroutines: bitlen=%d bucket=%d panic=%v", hx(x.root[:]), hx(x.id[:]), x.bitlen, x.idx, d.BitLen(), idx, p)
+								}
+								mu.Unlock()
+								return
+							}
+							continue
+						}
 						idx, p := dht.VerifBucketIndex(x.root, x.id)
 						rid := dht.VerifRandomIdInBucket(x.root, x.idx)
 						ridx, p2 := dht.VerifBucketIndex(x.root, rid)
